@@ -41,9 +41,15 @@
   task's outcome (`execCall o`), each registration's callback behaviour and `extra` (`regCall`), and when a
   timed wait gives up (`obsTimeout`, enabled only while the event flag is clear).
 
-  Python objects are abstract identities: `Obj = Option Nat`, `none` being `None`.  A task that raises a
-  `BaseException` that is not an `Exception` (KeyboardInterrupt, SystemExit) is outside the domain of C16
-  ("tasks that return any object or raise any exception") and is not modelled.
+  Python objects are abstract identities: `Obj = Option Nat`, `none` being `None`.  An identity carries no
+  value and in particular no truth value: `0`, `""`, `[]`, `False`, `()`, an exception with empty `args` or a
+  falsy `__bool__`/`__len__`, a callable instance whose `__bool__` is False are `some n` like any other object,
+  because the code never asks for the truth value of a result, an exception, an `extra` or a callable: every
+  test is an identity test against `None` (`callback is not None`, `self.__exception is None`; extracted facts
+  `notifyGuard`, `waitGuard`).  The harness draws results / extras / exceptions / callables from those falsy
+  families and numbers them by identity.  A task that raises a `BaseException` that is not an `Exception`
+  (KeyboardInterrupt, SystemExit) is outside the domain of C16 ("tasks that return any object or raise any
+  exception") and is not modelled.
 -/
 
 namespace JRV.Future
@@ -304,6 +310,23 @@ def step? (s : State) : Action → Option State
     else none
   | .obs j => stepObs s j
   | .obsTimeout j => stepObsTimeout s j
+
+/-! ### constants of the step table that the extracted facts are compared with (JRV.Properties.C16Gen) -/
+
+/-- Lines the model executes while the registrar / executor holds the lock (strictly inside the critical
+    section: after the acquisition, before the release), by label, sorted. -/
+def regCsLabels : List String := ["readCompleted", "storeCb", "storeExtra"]
+def execCsLabels : List String := ["readCb", "readExtra", "setCompleted"]
+
+/-- Shape of the guard of `__notify`, as in the `rel` steps of `stepReg` / `stepExec` (`r.method ≠ none`,
+    `e.cb ≠ none`): identity with `None` — NOT the truth value of the callable, of which the model has no notion
+    (a callable instance with `__bool__` False or `__len__` 0 is called like any other). -/
+def notifyGuardShape : String := "isNotNone"
+
+/-- `result(timeout)` hands its `timeout` to `EventData.wait`, which hands it to `Event.wait`, both unchanged:
+    the `timeout : Bool` of `OKind.result` ("a finite timeout was given", zero included) is what decides whether
+    `stepObsTimeout` is enabled.  (result forwards, wait forwards) -/
+def waitTimeoutForwarded : Bool × Bool := (true, true)
 
 /-- Reachability: every finite schedule of every client program. -/
 inductive Reach : State → Prop
